@@ -7,6 +7,7 @@ structure of them) and the carrier object handed to the library:
   ["f", num, exp]                Python float == num * 2**exp exactly
   ["n", dtype, num, exp]         NumPy scalar of that dtype (exactly representable)
   ["s", num, exp]                decimal string of num * 2**exp (terminating expansion)
+  ["d", num, exp]                decimal.Decimal holding num * 2**exp exactly
   ["b", bits]                    binary string "0b<bits>" (value depends on destination format)
   ["h", hexdigits]               hex string "0x<digits>"   (value depends on destination format)
   ["l", [valspec, ...]]          list          ["t", [valspec, ...]]  tuple
@@ -113,7 +114,7 @@ def exact(spec, fmt=None):
         return (), [dy(spec[1], spec[2])]
     if k == 'n':
         return (), [dy(spec[2], spec[3])]
-    if k == 's':
+    if k in ('s', 'd'):
         return (), [dy(spec[1], spec[2])]
     if k == 'b':
         return (), [_bits_value(spec[1], fmt)]
@@ -153,6 +154,9 @@ def carrier(spec):
         return t(math.ldexp(spec[2], spec[3]))
     if k == 's':
         return dec_str(dy(spec[1], spec[2]))
+    if k == 'd':
+        import decimal
+        return decimal.Decimal(dec_str(dy(spec[1], spec[2])))     # exact: built from the digit string
     if k == 'b':
         return '0b' + spec[1]
     if k == 'h':
